@@ -88,11 +88,11 @@ func (w *Witness) String() string {
 }
 
 type FuncEffect struct {
-	WritesParam   map[int]*Witness // writes the object the parameter refers to directly
+	WritesParam     map[int]*Witness // writes the object the parameter refers to directly
 	WritesParamDeep map[int]*Witness // writes memory reached from the parameter through a load
-	WritesGlobal  map[*ssa.Global]*Witness
-	WritesFree    map[int]*Witness
-	WritesUnknown *Witness
+	WritesGlobal    map[*ssa.Global]*Witness
+	WritesFree      map[int]*Witness
+	WritesUnknown   *Witness
 	// roots the results may alias / reach (rFresh collapsed to Site=nil)
 	RetFrom rootSet
 	Spawns  *Witness // go statement reachable
@@ -112,7 +112,7 @@ type Effects struct {
 	changed  bool
 	// statistics
 	Stores, MapUpdates, Calls, DynCalls, Callbacks int
-	UnknownNotes                                  []string
+	UnknownNotes                                   []string
 }
 
 func isStd(f *ssa.Function) bool {
